@@ -105,4 +105,9 @@ CONFIG = {
         "thorough": {'checks': 800000, 'shards': 14, 'timeout': 3600, 'shrinktime': '60s'},
         "assumptions": ['pointer-receiver methods are expected only on addressable values, as in Go', 'absent map keys are probed with index syntax only (.name on an absent key is left open by the statement)', 'the struct-field cache is process-global: cold-cache behaviour is exercised once per type per process'],
     },
+    'C17': {
+        "quick": {'checks': 20000, 'shards': 4, 'timeout': 900},
+        "thorough": {'checks': 800000, 'shards': 14, 'timeout': 3600, 'shrinktime': '60s'},
+        "assumptions": ['method values, call expressions and slice expressions are not used as isset arguments', 'piped form: the piped expression itself must evaluate without error'],
+    },
 }
